@@ -72,8 +72,28 @@ fn threshold(sym: &str) -> f64 {
 }
 
 /// run one point in this (child) process and print the observation
+fn ctor_val(sym: &str) -> f64 {
+    match sym {
+        "neg" => -1.0,
+        "zero" => 0.0,
+        "one" => 1.0,
+        "two" => 2.0,
+        "nan" => f64::NAN,
+        "pinf" => f64::INFINITY,
+        _ => f64::NEG_INFINITY,
+    }
+}
+
 pub fn child(args: &Args) {
     let case: Value = serde_json::from_str(args.get("case")).unwrap();
+    if let Some(c) = case.get("ctor") {
+        // the constructor family: does RegretParams::new panic?
+        let v = |k: &str| ctor_val(c[k].as_str().unwrap());
+        let (a, b, g, w) = (v("a"), v("b"), v("g"), v("w"));
+        let res = util::catch(move || ::cfr::RegretParams::new(a, b, g, w));
+        println!("{}", json!({"outcome": if res.is_ok() { "ok" } else { "panic" }, "ctor": true}));
+        return;
+    }
     let list = games();
     let (_, t) = &list[case["game"].as_u64().unwrap() as usize - 1];
     let preset = case["preset"].as_str().unwrap();
@@ -156,7 +176,11 @@ pub fn replay(args: &Args) {
                 let obs: Value = serde_json::from_str(text.trim().lines().last().unwrap_or("null")).unwrap_or(Value::Null);
                 let outcome = obs["outcome"].as_str().unwrap_or("?");
                 let verdicts: Vec<&str> = case["verdict"].as_array().unwrap().iter().map(|v| v.as_str().unwrap()).collect();
-                if outcome == "panic" {
+                if obs["ctor"].as_bool() == Some(true) {
+                    if !verdicts.contains(&outcome) {
+                        bad.push(json!({"class": "constructor", "what": "RegretParams::new does not panic exactly as documented", "observed": outcome, "specified": verdicts}));
+                    }
+                } else if outcome == "panic" {
                     bad.push(json!({"class": "panic", "what": "solve panicked", "observed": obs["what"]}));
                 } else if !verdicts.contains(&outcome) {
                     bad.push(json!({"class": "verdict", "what": "returned neither normally nor the documented error", "observed": outcome, "specified": verdicts}));
